@@ -902,7 +902,8 @@ func (r *runner) run() {
 			case <-done:
 			case <-time.After(r.wdog):
 				// the call goroutine is abandoned; snapshot what we have
-				hang := M{"ev": "ret", "api": s["api"], "hang": true, "err": true, "errClass": "hang"}
+				hang := M{"ev": "ret", "api": s["api"], "hang": true, "err": true, "errClass": "hang",
+					"ctxMs": ms, "wdogMs": int(r.wdog / time.Millisecond)}
 				if e, ok := s["exp"]; ok {
 					hang["exp"] = e // a call that does not return is a failure of the scenario's own property too
 				}
